@@ -209,3 +209,52 @@ Example vgenesis_example :
   vgenesis_init g 58 = None /\
   vgenesis_init {| vg_denom_nonempty := true; vg_denom_ok := true; vg_vtypes := []; vg_owners := []; vg_traces := []; vg_trace_count := 0 |} 100 = None.
 Proof. vm_compute. repeat split. eexists; split; reflexivity. Qed.
+
+(* ------------------------------------------------------------------ C12: lineage traces and vesting types *)
+(* every keyed part of the store behaves like the pool part: importing, in any order, what an export lists in key order gives
+   the exported store back *)
+Theorem trace_store_export_import_identity s :
+  ksorted (vs_traces s) -> (forall e, In e (vs_traces s) -> gt_addr (snd e) = fst e) ->
+  fold_left (fun st t => kset (gt_addr t) t st) (vstore_export_traces s) [] = vs_traces s.
+Proof.
+  intros Hs Hk. unfold vstore_export_traces.
+  assert (G : forall l acc, (forall e, In e l -> gt_addr (snd e) = fst e) -> ksorted (acc ++ l) ->
+              fold_left (fun st t => kset (gt_addr t) t st) (map snd l) acc = acc ++ l).
+  { induction l as [|[k v] t IH]; intros acc Hin H; cbn [map fold_left snd]; [rewrite app_nil_r; reflexivity|].
+    assert (Ek : gt_addr v = k) by (apply (Hin (k, v)); left; reflexivity). rewrite Ek.
+    rewrite kset_beyond.
+    - replace (acc ++ (k, v) :: t) with ((acc ++ [(k, v)]) ++ t) by (rewrite <- app_assoc; reflexivity).
+      apply IH; [intros e He; apply Hin; right; exact He|rewrite <- app_assoc; exact H].
+    - unfold ksorted, keys in H. rewrite map_app in H. cbn [map fst] in H.
+      clear IH. induction acc as [|[k0 v0] a IHa]; cbn [map fst app] in *; [constructor|].
+      inversion H as [|? ? Ht Hall]; subst. constructor; [|apply IHa; exact Ht].
+      rewrite Forall_forall in Hall. apply Hall. apply in_or_app. right. left. reflexivity. }
+  apply (G (vs_traces s) []); assumption.
+Qed.
+
+(* what InitGenesis stores for the traces is in key order and every entry sits under its own address *)
+Lemma kset_in {A} k (v : A) l e : In e (kset k v l) -> e = (k, v) \/ In e l.
+Proof.
+  induction l as [|[k' v'] t IH]; cbn [kset In]; [intros [H|[]]; left; symmetry; exact H|].
+  destruct (k <? k'); cbn [In].
+  - intros [H|H]; [left; symmetry; exact H|right; exact H].
+  - destruct (k =? k'); cbn [In].
+    + intros [H|H]; [left; symmetry; exact H|right; right; exact H].
+    + intros [H|H]; [right; left; exact H|]. destruct (IH H) as [E|I]; [left; exact E|right; right; exact I].
+Qed.
+
+Theorem init_trace_store_well_keyed g B s : vgenesis_init g B = Some s ->
+  ksorted (vs_traces s) /\ forall e, In e (vs_traces s) -> gt_addr (snd e) = fst e.
+Proof.
+  unfold vgenesis_init. destruct (vg_denom_nonempty g && vg_denom_ok g); cbn [negb]; [|discriminate].
+  destruct (genesis_locked g =? B); cbn [negb]; [|discriminate].
+  destruct (existsb (fun t => gv_name t =? 0) (vg_vtypes g)); [discriminate|].
+  match goal with |- (if ?b then _ else _) = _ -> _ => destruct b end; [discriminate|].
+  intros H. injection H as <-. cbn [vs_traces].
+  assert (G : forall l acc, ksorted acc -> (forall e, In e acc -> gt_addr (snd e) = fst e) ->
+              ksorted (fold_left (fun s t => kset (gt_addr t) t s) l acc) /\
+              forall e, In e (fold_left (fun s t => kset (gt_addr t) t s) l acc) -> gt_addr (snd e) = fst e).
+  { induction l as [|t r IH]; intros acc Hs Hk; cbn [fold_left]; [split; assumption|].
+    apply IH; [apply kset_sorted; exact Hs|]. intros e He. destruct (kset_in _ _ _ _ He) as [->|Hin]; [reflexivity|apply Hk; exact Hin]. }
+  apply G; [constructor|intros e []].
+Qed.
